@@ -102,6 +102,9 @@ type ProcObs struct {
 	Bad        []string `json:"bad_output,omitempty"`
 	OutputTail string   `json:"output_tail,omitempty"`
 	SocketLeft bool     `json:"ipc_socket_left"`
+	// "address already in use": every attempt to start (a fresh port each time) lost its port to another process; other
+	// checks start servers on this machine at the same time. Not an observation about the server (lib/clitie.py).
+	BindFailure bool `json:"bind_failure,omitempty"`
 }
 
 type FileEntry struct {
@@ -387,6 +390,9 @@ func startServer(s *serverSpec, obs *ProcObs) *proc {
 			if p.exited() {
 				break
 			}
+			if strings.Contains(p.out.String(), "address already in use") {
+				break
+			}
 			if strings.Contains(p.out.String(), "gRPC server started. Listening on "+s.grpcAddr) && dialOK(s.grpcAddr) && !p.exited() {
 				ready = true
 				break
@@ -394,8 +400,8 @@ func startServer(s *serverSpec, obs *ProcObs) *proc {
 			time.Sleep(3 * time.Millisecond)
 		}
 		if ready {
-			obs.Started = true
-			obs.StartErr = ""
+			// nothing of an earlier attempt that lost its port stays in the record
+			obs.Started, obs.StartErr, obs.BindFailure, obs.Bad = true, "", false, nil
 			return p
 		}
 		out := p.out.String()
@@ -403,9 +409,11 @@ func startServer(s *serverSpec, obs *ProcObs) *proc {
 		obs.StartErr = fmt.Sprintf("server did not come up (attempt %d): %s", attempt, tail(out, 1500))
 		obs.Bad = scanBad(out)
 		if strings.Contains(out, "address already in use") {
-			time.Sleep(time.Duration(40*attempt) * time.Millisecond)
+			obs.BindFailure = true
+			time.Sleep(time.Duration(20*attempt) * time.Millisecond)
 			continue
 		}
+		obs.BindFailure = false
 		return nil
 	}
 	return nil
